@@ -12,7 +12,7 @@ echo "== suite with change: $(PYTHONPATH=$wt /venv/bin/python -m pytest -q -p no
 echo "== demo with change"; PYTHONPATH=$wt /venv/bin/python $out/demo.py >/dev/null 2>&1; echo "   exit=$?"
 for p in $props; do
   for tier in quick ${THOROUGH:+thorough}; do
-    o=$(VERIF_REPO=$wt /verif/check $p --tier $tier 2>&1); rc=$?
+    o=$(VF_NO_EVIDENCE=1 VERIF_REPO=$wt /verif/check $p --tier $tier 2>&1); rc=$?
     echo "== check $p $tier: exit=$rc $(echo "$o" | grep -E 'witness\[' | head -2 | cut -c1-300)"
     [ $rc -eq 1 ] && break
   done
